@@ -16,6 +16,9 @@ from sim.runner import RunResult, Violation, HarnessError
 
 PROP = 'C17'
 
+# selftest: also prove determinism of the rarer modes (always pre-history, always fine yield points)
+SELFTEST_VARIANTS = {'sched': [dict(prehistory=8, fine=4)]}
+
 TEMPLATES = ['wraps', 'wraps_annot', 'sigattr', 'fwd', 'meth', 'mod', 'deco', 'asforged', 'comb', 'instdep']
 
 ENTRIES = ['sigtools.signature', 'inspect.signature', 'sigtools.signature(auto=False)', 'signatures.signature']
@@ -172,6 +175,35 @@ class PCT(sched.Policy):
 
 _TWIN_CACHE = {}
 
+# pre-history: what the process did before the racing calls.  A pool of small forwarding
+# functions (distinct code objects, compiled once per process) whose signatures are retrieved
+# sequentially before the threads start, so that whatever retrieval keeps per process (memos,
+# bounded caches) is warm or full when the race begins.
+_AUX = [None]
+AUX_N = 320
+
+
+def aux_functions():
+    if _AUX[0] is None:
+        import linecache
+        import types
+        src = worlds.HEADER + 'def auxt(x, y=1, *, z=2):\n    return x\n\n' + ''.join(
+            'def aux{0}(a{0}, *args, **kwargs):\n    return auxt(*args, **kwargs)\n\n'.format(i)
+            for i in range(AUX_N))
+        fn = '<sim:aux.py>'
+        linecache.cache[fn] = (len(src), None, src.splitlines(True), fn)
+        mod = types.ModuleType('simworld_aux')
+        mod.__file__ = fn
+        exec(compile(src, fn, 'exec'), mod.__dict__)
+        _AUX[0] = [mod.__dict__['aux{0}'.format(i)] for i in range(AUX_N)]
+    return _AUX[0]
+
+
+def prefill(n):
+    import sigtools
+    for f in aux_functions()[:n]:
+        sigtools.signature(f)
+
 
 def expected_outcome(spec, entry, label, inspect_lines=False, need_wp=False, cfg=None, fine=False):
     """(outcome, steps, write points) of the call executed alone, under a
@@ -184,12 +216,16 @@ def expected_outcome(spec, entry, label, inspect_lines=False, need_wp=False, cfg
         return r
     if len(_TWIN_CACHE) > 20000:
         _TWIN_CACHE.clear()
+    from sim import sutstate
+    iso = sutstate.isolated()
+    iso.__enter__()
     w = worlds.build(spec)
     try:
         objects = snapshot.closure(w)
         names = dict((id(o), n) for n, o in objects)
         out = [None]
         points = [] if need_wp else None
+        sut_points = [] if need_wp else None
         if need_wp:
             snap = snapshot.Snapshot(objects)
             last = [world_fp(snap, objects)]
@@ -198,6 +234,9 @@ def expected_outcome(spec, entry, label, inspect_lines=False, need_wp=False, cfg
                 def at_step(self, s, cur):
                     fp = world_fp(snap, objects)
                     if fp != last[0]:
+                        if fp[-1] != last[0][-1]:
+                            # process-wide sigtools state (none on the tree as given) was written
+                            sut_points.append(s.local_steps[cur])
                         last[0] = fp
                         points.append(s.local_steps[cur])
                     return cur
@@ -210,9 +249,11 @@ def expected_outcome(spec, entry, label, inspect_lines=False, need_wp=False, cfg
         s = sched.Scheduler([body], policy, step_cap=(cfg or {}).get('step_cap', 400000),
                             inspect_lines=inspect_lines, fine=fine)
         s.run()
-        r = (out[0], s.step, points[:40] if points is not None else None)
+        r = (out[0], s.step, points[:40] if points is not None else None,
+             sut_points[:40] if sut_points is not None else None)
     finally:
         w.teardown()
+        iso.__exit__()
     _TWIN_CACHE[key] = r
     return r
 
@@ -221,17 +262,24 @@ def world_fp(snap, objects):
     """Fingerprint of everything shared that a retrieval might write: attribute
     sets/identities of world objects, sizes of containers they hold, the guard."""
     import weakref
+    conts = getattr(snap, '_c17_containers', None)
+    if conts is None:
+        conts = []
+        for name, o, before in snap.state:
+            for k, v in before.items():
+                if isinstance(v, (dict, set, list, weakref.WeakKeyDictionary)):
+                    conts.append(v)
+        snap._c17_containers = conts
     fp = [snap.fingerprint()]
     sizes = []
-    for name, o, before in snap.state:
-        for k, v in before.items():
-            if isinstance(v, (dict, set, list, weakref.WeakKeyDictionary)):
-                try:
-                    sizes.append(len(v))
-                except Exception:
-                    sizes.append(-1)
+    for v in conts:
+        try:
+            sizes.append(len(v))
+        except Exception:
+            sizes.append(-1)
     from props.c16 import _guard_container_len
-    return (tuple(fp), tuple(sizes), _guard_container_len())
+    from sim import sutstate
+    return (tuple(fp), tuple(sizes), _guard_container_len(), sutstate.fingerprint())
 
 
 class C17Sched(object):
@@ -263,7 +311,12 @@ class C17Sched(object):
         res.counters['yield_points:' + ('line+after-call' if fine else 'line')] += 1
         tpl = spec['template']
 
-        strategy = ch.weighted(cfg.get('strategy_weights', [3, 3, 2, 2]), 'strategy')
+        # pre-history: what the process did before (see prefill); such runs look for races on
+        # process-wide state, so they use the write-point-biased strategy
+        npre = 0
+        if ch.chance(cfg.get('prehistory', 1), 8, 'pre-history'):
+            npre = [40, 300, 300][ch.draw(3, 'pre-history-length')]
+        strategy = 1 if npre else ch.weighted(cfg.get('strategy_weights', [3, 3, 2, 2]), 'strategy')
         first = ch.draw(nthreads, 'first-thread')
         solo = [[expected_outcome(spec, e, l, inspect_lines, need_wp=(strategy == 1), cfg=cfg, fine=fine) for e, l in prog]
                 for prog in programs]
@@ -276,6 +329,20 @@ class C17Sched(object):
                 pts.extend(base + p for p in (r[2] or []))
                 base += r[1]
             write_points.append(pts)
+        sut_write_points = []
+        for t in solo:
+            pts, base = [], 0
+            for r in t:
+                pts.extend(base + p for p in (r[3] or []))
+                base += r[1]
+            sut_write_points.append(pts)
+        if npre and any(sut_write_points):
+            # races on process-wide state: aim at the very steps that write to it
+            write_points = sut_write_points
+            radii = [0, 1, 2, 3]
+            res.counters['runs_aiming_at_process_state_writes'] += 1
+        else:
+            radii = [1, 3, 10, 30]
         if strategy == 0 or (strategy == 1 and not any(write_points)):
             k = 1 + ch.draw(3, 'n-preemptions')
             points = []
@@ -292,7 +359,7 @@ class C17Sched(object):
                 cands = [t for t in range(nthreads) if write_points[t]]
                 t = cands[ch.draw(len(cands), 'preempt-thread')]
                 wp = write_points[t][ch.draw(len(write_points[t]), 'write-point')]
-                r = [1, 3, 10, 30][ch.draw(4, 'radius')]
+                r = radii[ch.draw(4, 'radius')]
                 s = max(1, wp - r + ch.draw(2 * r + 1, 'offset'))
                 points.append((t, s, ch.draw(nthreads - 1, 'preempt-target')))
             policy = LocalPreempt(first, points, ch.draw(nthreads, 'finish-order'))
@@ -312,6 +379,10 @@ class C17Sched(object):
             sname = 'walk'
         res.counters['strategy:' + sname] += 1
         res.counters['threads:%d' % nthreads] += 1
+        if npre:
+            prefill(npre)
+            res.counters['runs_with_prehistory'] += 1
+            res.counters['prehistory_retrievals'] += npre
 
         w = worlds.build(spec)
         try:
@@ -423,7 +494,7 @@ def setup(tier):
     drivers = {'sched': C17Sched()}
     cfgs = {'sched': dict(name='sched', templates=TEMPLATES, max_forged=2 if thorough else 1,
                           max_depth=3 if thorough else 2, three_threads=3 if thorough else 1,
-                          inspect_lines=thorough, fine=2 if thorough else 1, chunk=40, run_timeout=300, chunk_timeout=1200)}
+                          inspect_lines=thorough, fine=2 if thorough else 1, prehistory=1, chunk=40, run_timeout=300, chunk_timeout=1200)}
     return drivers, cfgs
 
 
